@@ -7,10 +7,10 @@ package checks
 // and C11 (bidder funds), and the awaiting-settlement terms of C01.
 
 import (
-	"strings"
 	"fmt"
 	"math/big"
 	"sort"
+	"strings"
 	"time"
 
 	sdk "github.com/cosmos/cosmos-sdk/types"
